@@ -13,7 +13,7 @@ use ::std::io::Error as IoError;
 // (8, 16, 32, 64) and every len <= 2^63: the padding r is < alignment and len + r is a multiple of
 // alignment (hence r is the minimal such padding). Kani pair of the Verus unit
 // verus.arrow-ipc.writer.pad_to_alignment (same contract, different tool).
-// @unit name=pad_to_alignment_pair props=C04 kind=complete fns=pad_to_alignment
+// @unit name=pad_to_alignment_pair props=C04 kind=complete fns=pad_to_alignment tier=quick
 #[kani::proof]
 fn pad_to_alignment_pair() {
     let alignment: u8 = kani::any();
@@ -53,7 +53,7 @@ fn opts(alignment: u8, legacy: bool, v5: bool) -> IpcWriteOptions {
 // and every metadata_len <= 2^40: prefix + metadata + padding is a multiple of the alignment,
 // padded_header_len == prefix + padded_metadata_len, padded_metadata_len == metadata_len +
 // metadata_padding, and the padding is minimal (< alignment).
-// @unit name=metadata_layout props=C04 kind=complete fns=MetadataLayout::new
+// @unit name=metadata_layout props=C04 kind=complete fns=MetadataLayout::new tier=quick
 #[kani::proof]
 fn metadata_layout() {
     let alignment: u8 = kani::any();
@@ -81,7 +81,7 @@ fn metadata_layout() {
 
 // Contract (C04): get_buffer_element_width(spec) is the byte width of a FixedWidth spec and 0 for
 // every other spec (truth table over the four BufferSpec variants, all widths/alignments).
-// @unit name=buffer_element_width_table props=C04 kind=complete fns=get_buffer_element_width
+// @unit name=buffer_element_width_table props=C04 kind=complete fns=get_buffer_element_width tier=quick
 #[kani::proof]
 fn buffer_element_width_table() {
     let w: usize = kani::any();
@@ -96,7 +96,7 @@ fn buffer_element_width_table() {
 // Contract (C04): buffer_need_truncate(array_offset, buffer, spec, min_length) <=> spec is not
 // AlwaysNull /\ (array_offset != 0 \/ min_length < buffer.len()), for every spec variant, every
 // array_offset / min_length and buffers of every length 0..=16 (a window of a 16-byte allocation).
-// @unit name=buffer_need_truncate_table props=C04 kind=bounded bound=buffer_len<=16_everything_else_symbolic fns=buffer_need_truncate
+// @unit name=buffer_need_truncate_table props=C04 kind=bounded bound=buffer_len<=16_everything_else_symbolic fns=buffer_need_truncate tier=quick
 #[kani::proof]
 fn buffer_need_truncate_table() {
     let store = [0u8; 16];
@@ -190,7 +190,7 @@ fn stub_io_to_arrow(error: std::io::Error) -> ArrowError { ArrowError::IoError(S
 // and nothing else; on Err what the sink received is a strict prefix of those bytes (no byte is
 // reordered, duplicated or invented), and no further write is attempted after the failure.
 // Stubs: alloc::fmt::format; <ArrowError as From<io::Error>>::from (message rendering only).
-// @unit name=write_continuation_sink props=C04,C18 kind=complete fns=IpcMessageSinkExt::write_continuation,IpcMessageSink::write_slice timeout=900 mem=4
+// @unit name=write_continuation_sink props=C04,C18 kind=complete fns=IpcMessageSinkExt::write_continuation,IpcMessageSink::write_slice timeout=900 mem=4 tier=thorough
 #[kani::proof]
 #[kani::unwind(10)]
 #[kani::stub(alloc::fmt::format, stub_format)]
@@ -223,7 +223,7 @@ fn write_continuation_sink() {
 // are a caller error and panic on the slice index: may-reject) hands exactly `len` zero bytes to the sink
 // — none when len == 0: the sink is not called at all — and returns Ok iff the sink did not fail; on
 // failure nothing was accepted.
-// @unit name=write_padding_sink props=C04,C18 kind=complete mayreject=1 fns=IpcMessageSinkExt::write_padding,IpcMessageSink::write_slice
+// @unit name=write_padding_sink props=C04,C18 kind=complete mayreject=1 fns=IpcMessageSinkExt::write_padding,IpcMessageSink::write_slice tier=quick
 #[kani::proof]
 #[kani::unwind(4)]
 #[kani::stub(alloc::fmt::format, stub_format)]
@@ -285,9 +285,9 @@ macro_rules! write_body_data_sink {
         }
     };
 }
-// @unit name=write_body_data_len5 props=C04,C18 kind=bounded bound=body_len=5 fns=IpcMessageSinkExt::write_body_data,IpcMessageSinkExt::write_padding,pad_to_alignment tier=thorough note=not_confirmed_at_checkpoint
+// @unit name=write_body_data_len5 props=C04,C18 kind=bounded bound=body_len=5 fns=IpcMessageSinkExt::write_body_data,IpcMessageSinkExt::write_padding,pad_to_alignment tier=thorough note=not_confirmed_timeout_measured
 write_body_data_sink!(write_body_data_len5, 5);
-// @unit name=write_body_data_len16 props=C04,C18 kind=bounded bound=body_len=16 fns=IpcMessageSinkExt::write_body_data,IpcMessageSinkExt::write_padding,pad_to_alignment
+// @unit name=write_body_data_len16 props=C04,C18 kind=bounded bound=body_len=16 fns=IpcMessageSinkExt::write_body_data,IpcMessageSinkExt::write_padding,pad_to_alignment tier=thorough
 write_body_data_sink!(write_body_data_len16, 16);
 
 // ------------------------------------------------------------------------------------------------
@@ -332,10 +332,14 @@ macro_rules! reencode_i32 {
         fn $name() {
             const OFF: usize = $off;
             const LEN: usize = $len;
-            let offs = any_offsets::<4>(i32::MAX);
-            // one harness per code path (first offset of the slice == 0: zero-copy window; != 0: re-encoded
-            // copy) so that the returned buffer is a concrete allocation for the solver
-            kani::assume((offs[OFF] == 0) == $zero);
+            let mut offs = any_offsets::<4>(i32::MAX);
+            // one harness per code path (first offset of the slice == 0: zero-copy window; != 0: re-encoded copy)
+            if $zero {
+                let mut z = 0;
+                while z <= OFF { offs[z] = 0; z += 1; }       // literal zeros (monotonicity is preserved)
+            } else {
+                kani::assume(offs[OFF] != 0);
+            }
             let bytes = [0u8; 6];
             let data = binary_data(&offs, &bytes, OFF, LEN);
             let (new, start, len) = reencode_offsets::<i32>(&data.buffers()[0], &data);
@@ -355,21 +359,21 @@ macro_rules! reencode_i32 {
         }
     };
 }
-// @unit name=reencode_i32_0_3_copy props=C04 kind=bounded bound=physical_offsets=4_slice=(0,3)_first_offset!=0 fns=reencode_offsets tier=thorough timeout=900 mem=6 note=not_confirmed_at_checkpoint
+// @unit name=reencode_i32_0_3_copy props=C04 kind=bounded bound=physical_offsets=4_slice=(0,3)_first_offset!=0 fns=reencode_offsets timeout=900 mem=6 tier=thorough note=not_confirmed_not_run
 reencode_i32!(reencode_i32_0_3_copy, 0, 3, false);
-// @unit name=reencode_i32_1_2_copy props=C04 kind=bounded bound=physical_offsets=4_slice=(1,2)_first_offset!=0 fns=reencode_offsets tier=thorough timeout=900 mem=6 note=not_confirmed_at_checkpoint
+// @unit name=reencode_i32_1_2_copy props=C04 kind=bounded bound=physical_offsets=4_slice=(1,2)_first_offset!=0 fns=reencode_offsets timeout=900 mem=6 tier=thorough note=not_confirmed_not_run
 reencode_i32!(reencode_i32_1_2_copy, 1, 2, false);
-// @unit name=reencode_i32_1_2_zero props=C04 kind=bounded bound=physical_offsets=4_slice=(1,2)_first_offset==0 fns=reencode_offsets tier=thorough timeout=900 mem=6 note=not_confirmed_at_checkpoint
+// @unit name=reencode_i32_1_2_zero props=C04 kind=bounded bound=physical_offsets=4_slice=(1,2)_first_offset==0 fns=reencode_offsets timeout=900 mem=6 tier=thorough note=not_confirmed_not_finished
 reencode_i32!(reencode_i32_1_2_zero, 1, 2, true);
-// @unit name=reencode_i32_2_1_copy props=C04 kind=bounded bound=physical_offsets=4_slice=(2,1)_first_offset!=0 fns=reencode_offsets tier=thorough timeout=900 mem=6 note=not_confirmed_at_checkpoint
+// @unit name=reencode_i32_2_1_copy props=C04 kind=bounded bound=physical_offsets=4_slice=(2,1)_first_offset!=0 fns=reencode_offsets timeout=900 mem=6 tier=thorough note=not_confirmed_not_run
 reencode_i32!(reencode_i32_2_1_copy, 2, 1, false);
-// @unit name=reencode_i32_2_0_copy props=C04 kind=bounded bound=physical_offsets=4_slice=(2,0)_first_offset!=0 fns=reencode_offsets tier=thorough timeout=900 mem=6 note=not_confirmed_at_checkpoint
+// @unit name=reencode_i32_2_0_copy props=C04 kind=bounded bound=physical_offsets=4_slice=(2,0)_first_offset!=0 fns=reencode_offsets timeout=900 mem=6 tier=thorough note=not_confirmed_not_run
 reencode_i32!(reencode_i32_2_0_copy, 2, 0, false);
-// @unit name=reencode_i32_0_3_zero props=C04 kind=bounded bound=physical_offsets=4_slice=(0,3)_first_offset==0 fns=reencode_offsets tier=thorough timeout=900 mem=6 note=not_confirmed_at_checkpoint
+// @unit name=reencode_i32_0_3_zero props=C04 kind=bounded bound=physical_offsets=4_slice=(0,3)_first_offset==0 fns=reencode_offsets timeout=900 mem=6 tier=thorough note=not_confirmed_not_run
 reencode_i32!(reencode_i32_0_3_zero, 0, 3, true);
 
 // same contract for 64-bit offsets (LargeBinary / LargeList)
-// @unit name=reencode_i64_1_2 props=C04 kind=bounded bound=physical_offsets=4_slice=(1,2)_first_offset!=0 fns=reencode_offsets tier=thorough timeout=900 mem=6 note=not_confirmed_at_checkpoint
+// @unit name=reencode_i64_1_2 props=C04 kind=bounded bound=physical_offsets=4_slice=(1,2)_first_offset!=0 fns=reencode_offsets timeout=900 mem=6 tier=thorough note=not_confirmed_not_run
 #[kani::proof]
 #[kani::unwind(8)]
 #[kani::stub(alloc::fmt::format, stub_format)]
@@ -409,23 +413,34 @@ macro_rules! byte_array_buffers {
         fn $name() {
             const OFF: usize = $off;
             const LEN: usize = $len;
-            let offs = any_offsets::<4>(6);
-            kani::assume((offs[OFF] == 0) == $zero);          // one harness per code path, as for reencode_offsets
+            let mut offs = any_offsets::<4>(6);
+            if $zero {                                          // one harness per code path, as for reencode_offsets
+                let mut z = 0;
+                while z <= OFF { offs[z] = 0; z += 1; }
+            } else {
+                kani::assume(offs[OFF] != 0);
+            }
             let bytes: [u8; 6] = kani::any();
             let data = binary_data(&offs, &bytes, OFF, LEN);
             let [o, v] = get_byte_array_buffers::<i32>(&data);
             let n: &[i32] = o.typed_data::<i32>();
             assert!(n.len() == LEN + 1);
             assert!(n[0] == 0);
-            assert!(v.len() == n[LEN] as usize);
-            let mut i = 0;
-            while i < LEN {
-                let (a, b) = (offs[OFF + i] as usize, offs[OFF + i + 1] as usize);
-                assert!(n[i] <= n[i + 1]);
-                assert!((n[i + 1] - n[i]) as usize == b - a);
+            if LEN == 0 {
+                assert!(v.is_empty());
+            } else {
+                // offsets re-based by the first offset of the slice ...
+                let mut i = 0;
+                while i <= LEN {
+                    assert!(n[i] == offs[OFF + i] - offs[OFF]);
+                    i += 1;
+                }
+                // ... and values = exactly the referenced window of the old values, so that
+                // values'[n[i]..n[i+1]] == bytes[old[OFF+i]..old[OFF+i+1]] for every row i
+                let (a, b) = (offs[OFF] as usize, offs[OFF + LEN] as usize);
+                assert!(v.len() == b - a);
                 let j: usize = kani::any();
-                if j < b - a { assert!(v.as_slice()[n[i] as usize + j] == bytes[a + j]); }
-                i += 1;
+                if j < b - a { assert!(v.as_slice()[j] == bytes[a + j]); }
             }
             kani::cover!(LEN == 0 || offs[OFF + LEN] - offs[OFF] >= 2);
             kani::cover!(LEN < 2 || (offs[OFF + 1] > offs[OFF] && offs[OFF + 2] > offs[OFF + 1]));
@@ -433,13 +448,13 @@ macro_rules! byte_array_buffers {
         }
     };
 }
-// @unit name=byte_array_buffers_0_3_zero props=C04 kind=bounded bound=rows=3_value_bytes=6_slice=(0,3)_first_offset==0 fns=get_byte_array_buffers,reencode_offsets tier=thorough timeout=900 mem=6 note=not_confirmed_at_checkpoint
+// @unit name=byte_array_buffers_0_3_zero props=C04 kind=bounded bound=rows=3_value_bytes=6_slice=(0,3)_first_offset==0 fns=get_byte_array_buffers,reencode_offsets timeout=900 mem=6 tier=thorough note=not_confirmed_not_run
 byte_array_buffers!(byte_array_buffers_0_3_zero, 0, 3, true);
-// @unit name=byte_array_buffers_1_2_copy props=C04 kind=bounded bound=rows=3_value_bytes=6_slice=(1,2)_first_offset!=0 fns=get_byte_array_buffers,reencode_offsets tier=thorough timeout=900 mem=6 note=not_confirmed_at_checkpoint
+// @unit name=byte_array_buffers_1_2_copy props=C04 kind=bounded bound=rows=3_value_bytes=6_slice=(1,2)_first_offset!=0 fns=get_byte_array_buffers,reencode_offsets timeout=900 mem=6 tier=thorough note=not_confirmed_timeout_measured
 byte_array_buffers!(byte_array_buffers_1_2_copy, 1, 2, false);
-// @unit name=byte_array_buffers_2_1_copy props=C04 kind=bounded bound=rows=3_value_bytes=6_slice=(2,1)_first_offset!=0 fns=get_byte_array_buffers,reencode_offsets tier=thorough timeout=900 mem=6 note=not_confirmed_at_checkpoint
+// @unit name=byte_array_buffers_2_1_copy props=C04 kind=bounded bound=rows=3_value_bytes=6_slice=(2,1)_first_offset!=0 fns=get_byte_array_buffers,reencode_offsets timeout=900 mem=6 tier=thorough note=not_confirmed_not_run
 byte_array_buffers!(byte_array_buffers_2_1_copy, 2, 1, false);
-// @unit name=byte_array_buffers_2_0_empty props=C04 kind=bounded bound=rows=3_value_bytes=6_slice=(2,0)_empty fns=get_byte_array_buffers tier=thorough timeout=900 mem=6 note=not_confirmed_at_checkpoint
+// @unit name=byte_array_buffers_2_0_empty props=C04 kind=bounded bound=rows=3_value_bytes=6_slice=(2,0)_empty fns=get_byte_array_buffers timeout=900 mem=6 tier=thorough note=not_confirmed_not_run
 byte_array_buffers!(byte_array_buffers_2_0_empty, 2, 0, false);
 
 // Contract (C04): get_or_truncate_buffer(data) on an Int32 array with 4 physical values seen through the
@@ -470,11 +485,11 @@ macro_rules! truncate_i32 {
         }
     };
 }
-// @unit name=truncate_i32_0_4 props=C04 kind=bounded bound=physical_values=4_slice=(0,4) fns=get_or_truncate_buffer,buffer_need_truncate,get_buffer_element_width tier=thorough timeout=900 mem=6 note=not_confirmed_at_checkpoint
+// @unit name=truncate_i32_0_4 props=C04 kind=bounded bound=physical_values=4_slice=(0,4) fns=get_or_truncate_buffer,buffer_need_truncate,get_buffer_element_width timeout=900 mem=6 tier=thorough note=not_confirmed_not_run
 truncate_i32!(truncate_i32_0_4, 0, 4);
-// @unit name=truncate_i32_0_2 props=C04 kind=bounded bound=physical_values=4_slice=(0,2) fns=get_or_truncate_buffer,buffer_need_truncate,get_buffer_element_width tier=thorough timeout=900 mem=6 note=not_confirmed_at_checkpoint
+// @unit name=truncate_i32_0_2 props=C04 kind=bounded bound=physical_values=4_slice=(0,2) fns=get_or_truncate_buffer,buffer_need_truncate,get_buffer_element_width timeout=900 mem=6 tier=thorough note=not_confirmed_not_run
 truncate_i32!(truncate_i32_0_2, 0, 2);
-// @unit name=truncate_i32_1_2 props=C04 kind=bounded bound=physical_values=4_slice=(1,2) fns=get_or_truncate_buffer,buffer_need_truncate,get_buffer_element_width tier=thorough timeout=900 mem=6
+// @unit name=truncate_i32_1_2 props=C04 kind=bounded bound=physical_values=4_slice=(1,2) fns=get_or_truncate_buffer,buffer_need_truncate,get_buffer_element_width timeout=900 mem=6 tier=quick
 truncate_i32!(truncate_i32_1_2, 1, 2);
-// @unit name=truncate_i32_2_2 props=C04 kind=bounded bound=physical_values=4_slice=(2,2) fns=get_or_truncate_buffer,buffer_need_truncate,get_buffer_element_width tier=thorough timeout=900 mem=6 note=not_confirmed_at_checkpoint
+// @unit name=truncate_i32_2_2 props=C04 kind=bounded bound=physical_values=4_slice=(2,2) fns=get_or_truncate_buffer,buffer_need_truncate,get_buffer_element_width timeout=900 mem=6 tier=thorough note=not_confirmed_not_run
 truncate_i32!(truncate_i32_2_2, 2, 2);
